@@ -23,7 +23,7 @@ ASSUMPTIONS = [
     "termination (a liveness claim) is restated as bounded progress: exact step counts plus a generous watchdog",
     "depth is sampled up to 250000 tasks, not 'however deep'",
 ]
-UNIT_TIMEOUT = {"quick": 240, "thorough": 2400}
+UNIT_TIMEOUT = {"quick": 150, "thorough": 2400}
 
 PROFILE = gen.profile(
     p_shared=0.7,
@@ -53,7 +53,7 @@ def plan(tier, seed, build, scale):
         a += per
     deep = DEEP_QUICK if tier == "quick" else DEEP_THOROUGH
     for j, d in enumerate(deep):
-        units.append({"cases": [j, j + 1], "mode": "deep", "deep": list(d), "timeout": 900, "case_timeout": 600, "alone_timeout": 900})
+        units.append({"cases": [j, j + 1], "mode": "deep", "deep": list(d), "timeout": 200, "case_timeout": 120, "alone_timeout": 240})
     return units
 
 
